@@ -704,24 +704,39 @@ def bounded_retry(chk, P, prefix):
         backs = [(s, t) for s, t in b.back_edges() if t == ih]
         if not backs:
             return False, "retry loop has no back edge", [], b.span
+        dn = [c for c in b.calls(normal_only=True) if (c.callee.get("path") or "") == "emit_batcher::Delay::next"
+              and mir.o_field_path(b.origin(c.args[0], through_calls=("deref_mut",)))[1][-1:] == ["retry_delay"]]
+        if len(dn) != 1:
+            return False, "expected one retry_delay.next() in exec", [], b.span
         for s, t in backs:
             ok_next = False
-            ok_len = False
             for bb, vals, n in b.guards_of(s):
                 so = b.switch_origin(bb)
                 if so[0] == "call" and so[1].bb == rn[0].bb and list(vals) != ["0"]:
                     ok_next = True
-                a = atom(b, so)
-                if a[0] == "empty" and ((list(vals) != ["0"]) != a[1] or True):
-                    nonempty = ((list(vals) != ["0"]) == (not a[1])) if False else None
-                if so[0] == "binop" and so[2][0] == "call" and so[2][1].callee.get("name") == "len":
-                    ok_len = True
             if not ok_next:
                 return False, ("the retry loop can iterate without consuming the retry budget (a back edge from bb%d is not "
                                "control-dependent on Retry::next() being true): a permanently failing batch would be "
                                "retried forever" % s), [], rn[0].loc
-            if not ok_len:
-                return False, "the retry loop can iterate with an empty remainder", [], rn[0].loc
+            # back-off: every way round the loop passes through an awaited wait(retry_delay.next())
+            def nm_of(o):
+                if o[0] == "capture":
+                    return o[1]
+                if o[0] == "param":
+                    return o[2]
+                return (mir.o_field_path(o)[1] or [None])[-1]
+            ws = [c for c in b.calls(normal_only=True) if c.callee.get("name") in ("call_mut", "call") and nm_of(b.origin(c.args[0], through_calls=("deref_mut",))) == "wait"
+                  and common.has_root(b.origin(c.args[1]), "callsite", dn[0].bb)]
+            if not ws:
+                return False, ("a retry does not wait for the back-off: no wait(self.retry_delay.next()) call; a failing destination would be "
+                               "hammered in a tight loop"), [], dn[0].loc
+            if not b.must_pass({w.bb for w in ws}, start=rn[0].bb, ends=[s]):
+                return False, ("a retry can go round the loop without waiting for the back-off (wait(self.retry_delay.next()) is not on every "
+                               "path from Retry::next() to the back edge): a failing destination would be hammered in a tight loop"), [], rn[0].loc
+            polls = {c.bb for c in b.calls(normal_only=True) if c.callee.get("name") == "poll" and c.bb in ibody
+                     and any(common.has_root(b.origin(c.args[0]), "callsite", w.bb) for w in ws)}
+            if not polls or not any(b.must_pass(polls, start=w.bb, ends=[s]) for w in ws):
+                return False, "the back-off future is created but not awaited before the next attempt", [], ws[0].loc
         # resets dominate the retry loop for each new batch
         for path, nm in (("emit_batcher::Retry::reset", "retry"), ("emit_batcher::Delay::reset", "delays")):
             rs = b.calls_to(path=path)
@@ -730,7 +745,7 @@ def bounded_retry(chk, P, prefix):
         if len(b.calls_to(path="emit_batcher::Delay::reset")) != 2:
             return False, "both the retry delay and the idle delay must be reset for a new batch", [], b.span
         return True, "", [rn[0].loc]
-    chk.ob("%s.R2:retry-budget" % prefix, "every iteration of the retry loop consumes Retry::next() and needs a non-empty remainder; budget and delays reset per batch", f)
+    chk.ob("%s.R2:retry-budget" % prefix, "every iteration of the retry loop consumes Retry::next() and awaits the back-off wait(retry_delay.next()); budget and delays reset per batch", f)
 
     def retry_next():
         b = P.body("emit_batcher::Retry::next")
